@@ -9,6 +9,8 @@ Line protocol for the Learner2D bookkeeping model (component prefix `l2d`).  Poi
   l2d oracle cands <sorted pending ids>=<id:lossbits;…>   the complete candidate list of one `_fill_stack` call, keyed by the
                                            pending set the call sees (`data` is constant during one `ask`); cleared after every ask
   l2d tell <id> <inB> <value bits> | l2d tell_pending <id> <inB> | l2d ask <n> <0|1> | l2d remove_unfinished
+  l2d save_load      the state is replaced by `restoreFile` of its own data (save + load / copy_from into a fresh learner)
+  l2d pickle         the state is replaced by `setState (getState s)` (pickle.loads(pickle.dumps(learner)))
 Every operation line answers
   <status> [pts=… imps=…] data=<id:bits,…> pending=<sorted ids> stack=<id:bits,…> npoints=<n> done=<bounds_are_done>
 A candidate lookup the real code never made answers the conspicuous point 999999.
@@ -98,6 +100,12 @@ def stepLine (d : D) : List String → D × String
     | none => (d, "bad-op")
   | ["remove_unfinished"] =>
     let d' := { d with st := removeUnfinished (cfg d) d.st }
+    (d', "ok " ++ obs d')
+  | ["save_load"] =>
+    let d' := { d with st := restoreFile (cfg d) (getData d.st) }
+    (d', "ok " ++ obs d')
+  | ["pickle"] =>
+    let d' := { d with st := setState (cfg d) (getState d.st) }
     (d', "ok " ++ obs d')
   | _ => (d, "bad-op")
 
